@@ -276,7 +276,7 @@ After(lab, d) ==
 \* What a refused request leaves behind.
 Refused(lab) ==
     IF Bug = "storefirst" /\ lab.op = "set" /\ lab.c = "rl4"
-    THEN [r |-> [running EXCEPT !.rl = "77"], f |-> file, g |-> [reported EXCEPT !.rl = "77"]]
+    THEN [r |-> [running EXCEPT !.rl = "77"], f |-> [file EXCEPT !.rl = "77"], g |-> [reported EXCEPT !.rl = "77"]]
     ELSE [r |-> running, f |-> file, g |-> reported]
 
 Booted == IF Bug = "lostonrestart" THEN [file EXCEPT !.lang = "none"] ELSE file
